@@ -464,10 +464,11 @@ fn session(max_len: u64, budget: u32) {
     std::mem::forget(s);
 }
 
-// @verif prop=C26 tier=thorough timeout=1500 shape="range start free, length free in 1..=8 (one batch); up to 1 adversarial answer (strict prefix incl. empty, or header-ex error), the rest full; any completion order; probe height free" funcs="HeaderSession::{new,run,send_next_request,send_request},take_next_batch,HeaderRequestExt::{with_origin,is_valid},BlockRangeExt::len"
-#[kani::proof]
-#[kani::unwind(16)]
-fn c26_session_small_ranges() {
+// NOTE: a whole-`run()` harness (`session(8, 1)`: ranges of at most one batch, one adversarial
+// answer, any completion order) does not terminate within 1500 s on either SAT back end, so the run
+// loop is outside the claim; `session` is kept for experiments and is not registered.
+#[allow(dead_code)]
+fn session_experiment() {
     session(8, 1);
 }
 
